@@ -730,7 +730,7 @@ class Enum(DataType):
 
         return (
             self.type == pandera_dtype.type
-            and (self.type.categories == pandera_dtype.categories).all()  # type: ignore
+            and (self.type.categories == pandera_dtype.type.categories).all()  # type: ignore
         )
 
 
